@@ -40,6 +40,7 @@ type Engine struct {
 	workers    int
 	verbose    bool
 	tier       string
+	oneShotMs  int
 }
 
 type HarnessSpec struct {
